@@ -6,7 +6,7 @@ namespace Echse.Ical
 
 theorem flatNext_mu (p : Parser) (acc : List Instr) (x : Parser × List Instr)
     (h : flatNext p acc = some x) : mu x.1 < mu p := by
-  unfold flatNext at h
+  unfold flatNext book at h
   cases hr : (round p).2 with
   | none =>
     rw [hr] at h; cases h
